@@ -99,7 +99,7 @@ example :
 /-- **C10 (#if parser, print-and-parse round trip).**  For every tree `t` of the shape parse.c builds (`WF`: no node for unary
     `+`, no node kinds for `>` `>=`), the line `unparseTop t` – `t` printed with the minimal parentheses of C11 6.5
     (Model/IfUnparse.lean: an operand is parenthesised exactly when its outermost construct binds weaker than its position
-    admits) – is derived by the C11 grammar with tree `t`, is parsed back to exactly `t` by `ifParse`, and by conditional()
+    allows) – is derived by the C11 grammar with tree `t`, is parsed back to exactly `t` by `ifParse`, and by conditional()
     with every fuel above the number of tokens (the bound of `C10_ifparse_fuel`), leaving no token. -/
 theorem C10_ifparse_unparse (t : PT) (h : t.WF = true) :
     Derives .cond (unparseTop t) t ∧ ifParse (unparseTop t) = .ok t ∧
